@@ -5,6 +5,7 @@ from __future__ import annotations
 from .. import terms as tm
 from ..model import AnalysisError
 from .common import ob, need, call_name, is_lit, lit, positive_term, resolve_ite_free
+from . import common
 from .. import symeval
 from . import c06
 
@@ -366,6 +367,7 @@ def rule_foldshared(ctx):
 
 
 RULES = [
+    ("C17.NOMUT", 4, common.shared("c15", "rule_nomut", "C17.NOMUT", keep=lambda o: o.construct.startswith("hierarchy."))),
     ("C17.STATELESS", 10, rule_stateless),
     ("C17.LABELFOLD", 4, rule_foldshared),
     ("C17.PARAMCHECK", 4, rule_paramcheck),
